@@ -10,6 +10,7 @@ def sh(cmd, cwd=None, env=None, timeout=3600):
     return r.returncode, r.stdout + r.stderr
 src = sys.argv[1]
 runs = sys.argv[sys.argv.index("--runs") + 1] if "--runs" in sys.argv else "6000"
+base = sys.argv[sys.argv.index("--base") + 1] if "--base" in sys.argv else "HEAD"
 only = [a for a in sys.argv[2:] if re.fullmatch(r"C\d\d", a)]
 out = {}
 for pid in sorted(os.listdir(src)):
@@ -26,7 +27,7 @@ for pid in sorted(os.listdir(src)):
         wt = tempfile.mkdtemp(prefix="vref.", dir="/tmp"); os.rmdir(wt)
         res = {"files": sorted(files), "checks": {}}
         try:
-            rc, o = sh("git -C /repo worktree add -q --detach %s HEAD && cd %s && git apply %s" % (wt, wt, patch))
+            rc, o = sh("git -C /repo worktree add -q --detach %s %s && cd %s && git apply %s" % (wt, base, wt, patch))
             res["applies"] = rc == 0
             if rc == 0:
                 env = dict(os.environ, PYTHONPATH=wt, PYTHONDONTWRITEBYTECODE="1")
@@ -49,7 +50,7 @@ for pid in sorted(os.listdir(src)):
             shutil.rmtree(wt, ignore_errors=True)
         out[pid + x] = res
         bad = {c: r["rc"] for c, r in res["checks"].items() if r["rc"] != 0}
-        print(pid + x, "files", res["files"], "tests", res.get("tests"), "ALARMS" if bad else "quiet", bad, flush=True)
+        print(pid + x, "files", res["files"], "tests", res.get("tests"), ("ALARMS" if bad else "quiet") if res.get("applies") else "PATCH DOES NOT APPLY", bad, flush=True)
         for c in bad:
             for l in res["checks"][c]["lines"][:2]:
                 print("      ", c, l[:260], flush=True)
